@@ -232,6 +232,28 @@ def check(an: Analysis) -> None:
     uf = fcs["union"][1][0]
     gu = an.cfg(uf)
     ob = an.ob("C05.5", "K2", "union validator returns the first alternative that does not raise and raises when none matched (no value is yielded from the handler, no fall-through)", [uf.short])
+    # alternatives are tried in the order they are written in the annotation (the first one that accepts wins: `Sequence[T] | Any`
+    # converts a list, `Any | Sequence[T]` would hand it back mutable) - and element i of a fixed tuple meets validator i
+    from ..domains import comp_of as _comp_of
+
+    for kind_o in ("union", "tuple"):
+        if kind_o not in fcs:
+            continue
+        fac_o = fcs[kind_o][0]
+        dfo = Deps(prog, fac_o)
+        ap_o = fac_o.param_names()[0]
+        for name_o in sorted(multi_validator_names(fac_o)):
+            sh_o = _comp_of(dfo, ast.Name(id=name_o, ctx=ast.Load()))
+            if sh_o is None or not sh_o.ok:
+                continue
+            ob.inst(fac_o, sh_o.comp, f"{kind_o}: validators in annotation order")
+            it_o = unwrap(sh_o.iter)
+            while isinstance(it_o, ast.Call) and isinstance(it_o.func, ast.Name) and it_o.func.id in ("tuple", "list", "iter") and len(it_o.args) == 1:
+                it_o = unwrap(it_o.args[0])
+            if isinstance(it_o, ast.Name) and (sv_o := dfo.single_value(it_o.id)) is not None:
+                it_o = unwrap(sv_o)
+            if sh_o.filtered or dotted(it_o) != f"{ap_o}.arguments":
+                ob.fail(fac_o, sh_o.comp, f"the validators of the {kind_o} are not prepared for `{ap_o}.arguments` one by one in the written order (sorted / filtered / re-ordered): a different alternative wins, or element i meets another element's validator")
     rets = [n for n in gu.nodes if n.kind == "return"]
     for r in rets:
         ob.inst(uf, r.ast)
@@ -483,6 +505,16 @@ def check(an: Analysis) -> None:
             ob.fail(f, None, "a non-conforming value falls through and is accepted as None", CFG.show_path(w))
         if q != "any" and not [n for n in g.nodes if n.kind == "raise"]:
             ob.fail(f, None, "validator never rejects")
+        if q == "literal":
+            # a Literal admits every value *equal* to one of its members (a string read from a file, an int above the small-int
+            # cache): membership / == over the annotation's arguments - identity would reject conforming values
+            cmps = [c for c in f.own_nodes() if isinstance(c, ast.Compare) and any(is_name(x, p) or (isinstance(x, ast.Name) and dleaf.origins(x) == {f"param:{p}"}) for x in [c.left, *c.comparators])]
+            if not cmps:
+                ob.fail(f, None, "the literal validator never compares the value with the literal's members")
+            for c in cmps:
+                ob.inst(f, c)
+                if not all(isinstance(o, (ast.In, ast.NotIn, ast.Eq, ast.NotEq)) for o in c.ops):
+                    ob.fail(f, c, "the literal validator does not accept by equality with a member (`value in <members>`): identity / other comparisons reject conforming values that are equal but not the very constant object")
     tfac, tvs = fcs["type"]
     dfac = Deps(prog, tfac)
     ann_p = tfac.param_names()[0]
